@@ -156,6 +156,15 @@ func (r *zzRound) atLeast(k uint32, sel zzSel) bool {
 	return r.distinct(int(k), ok)
 }
 
+// The decision functions only read the pool, but their answer depends on Go's map iteration order. Under the
+// engine every order is explored (spec all_map_orders); a native replay samples the runtime's random orders.
+func zzTries() int {
+	if zzsym.Symbolic() {
+		return 1
+	}
+	return 64
+}
+
 // M messages; kinds: 1 = endorsements only, 2 = endorsements and proposals, 3 = all three, 4 = commit messages only
 func (r *zzRound) messages(M int, kinds int, maxEndorsers int) {
 	for m := 0; m < M; m++ {
@@ -179,22 +188,29 @@ func (r *zzRound) messages(M int, kinds int, maxEndorsers int) {
 func ZZ_C41_EndorseDone() {
 	r := zzNewRound()
 	r.messages(zzsym.Param("M"), zzsym.Param("KINDS"), zzsym.Param("E"))
-	p, forEmpty, done := r.pool.endorseDone(zzBlk, r.c)
-	if !done {
-		zzsym.Assert(zzA(p == math.MaxUint32, !forEmpty), "no decision names no proposer")
-		zzsym.Cover("endorse-pending")
-		return
+	for t := zzTries(); t > 0; t-- {
+		p, forEmpty, done := r.pool.endorseDone(zzBlk, r.c)
+		if !done {
+			zzsym.Assert(zzA(p == math.MaxUint32, !forEmpty), "no decision names no proposer")
+			zzsym.Cover("endorse-pending")
+			continue
+		}
+		if forEmpty {
+			zzsym.Assert(r.atLeast(r.c+1, func(f zzFact) bool { return f.empty }),
+				"the round is endorsed for an empty block only when more than C distinct participants voted for an empty block")
+			zzsym.Cover("endorse-empty")
+		} else {
+			zzsym.Assert(r.atLeast(r.c+1, func(f zzFact) bool { return zzA(!f.empty, f.proposer == p) }),
+				"a proposal is treated as endorsed only when more than C distinct participants endorsed it")
+			zzsym.Cover("endorse-proposal")
+		}
+		zzsym.Cover("endorse-done")
 	}
-	if forEmpty {
-		zzsym.Assert(r.atLeast(r.c+1, func(f zzFact) bool { return f.empty }),
-			"the round is endorsed for an empty block only when more than C distinct participants voted for an empty block")
-		zzsym.Cover("endorse-empty")
-	} else {
-		zzsym.Assert(r.atLeast(r.c+1, func(f zzFact) bool { return zzA(!f.empty, f.proposer == p) }),
-			"a proposal is treated as endorsed only when more than C distinct participants endorsed it")
-		zzsym.Cover("endorse-proposal")
-	}
-	zzsym.Cover("endorse-done")
+}
+
+// Same check, other bounds (one proposer, longer sequences).
+func ZZ_C41_EndorseDoneLong() {
+	ZZ_C41_EndorseDone()
 }
 
 // Stricter reading for the empty-block decision: the proposer named by endorseDone is the one whose empty block
@@ -202,11 +218,13 @@ func ZZ_C41_EndorseDone() {
 func ZZ_C41_EndorseEmptySameProposal() {
 	r := zzNewRound()
 	r.messages(zzsym.Param("M"), 1, 0)
-	p, forEmpty, done := r.pool.endorseDone(zzBlk, r.c)
-	if done && forEmpty {
-		zzsym.Assert(r.atLeast(r.c+1, func(f zzFact) bool { return zzA(f.empty, f.proposer == p) }),
-			"the empty block named as endorsed is one that more than C distinct participants voted for")
-		zzsym.Cover("endorse-empty")
+	for t := zzTries(); t > 0; t-- {
+		p, forEmpty, done := r.pool.endorseDone(zzBlk, r.c)
+		if done && forEmpty {
+			zzsym.Assert(r.atLeast(r.c+1, func(f zzFact) bool { return zzA(f.empty, f.proposer == p) }),
+				"the empty block named as endorsed is one that more than C distinct participants voted for")
+			zzsym.Cover("endorse-empty")
+		}
 	}
 	zzsym.Cover("endorse-empty-done")
 }
@@ -216,27 +234,34 @@ func ZZ_C41_EndorseEmptySameProposal() {
 func ZZ_C41_CommitDone() {
 	r := zzNewRound()
 	r.messages(zzsym.Param("M"), zzsym.Param("KINDS"), zzsym.Param("E"))
-	p, _, done := r.pool.commitDone(zzBlk, r.c, r.n)
-	if !done {
-		zzsym.Assert(p == math.MaxUint32, "no decision names no proposer")
-		zzsym.Cover("commit-pending")
-		return
+	for t := zzTries(); t > 0; t-- {
+		p, _, done := r.pool.commitDone(zzBlk, r.c, r.n)
+		if !done {
+			zzsym.Assert(p == math.MaxUint32, "no decision names no proposer")
+			zzsym.Cover("commit-pending")
+			continue
+		}
+		signers := r.atLeast(r.n-(r.n-1)/3-1, func(f zzFact) bool { return zzA(f.commit, f.proposer == p) })
+		endorsers := r.atLeast(r.n-r.c, func(f zzFact) bool { return zzA(!f.empty, f.proposer == p) })
+		zzsym.Assert(zzO(signers, endorsers),
+			"a round is committed only when N-floor((N-1)/3)-1 distinct commit signers or more than N-1-C distinct endorsers support the same proposal")
+		if len(r.pool.candidateBlocks[zzBlk].CommitMsgs) == 0 {
+			zzsym.Assert(endorsers, "without commit messages only more than N-1-C distinct endorsers commit the round")
+			zzsym.Cover("commit-by-endorsers")
+		} else {
+			zzsym.Cover("commit-with-commit-msgs")
+		}
+		zzsym.Cover("commit-done")
 	}
-	signers := r.atLeast(r.n-(r.n-1)/3-1, func(f zzFact) bool { return zzA(f.commit, f.proposer == p) })
-	endorsers := r.atLeast(r.n-r.c, func(f zzFact) bool { return zzA(!f.empty, f.proposer == p) })
-	zzsym.Assert(zzO(signers, endorsers),
-		"a round is committed only when N-floor((N-1)/3)-1 distinct commit signers or more than N-1-C distinct endorsers support the same proposal")
-	if len(r.pool.candidateBlocks[zzBlk].CommitMsgs) == 0 {
-		zzsym.Assert(endorsers, "without commit messages only more than N-1-C distinct endorsers commit the round")
-		zzsym.Cover("commit-by-endorsers")
-	} else {
-		zzsym.Cover("commit-with-commit-msgs")
-	}
-	zzsym.Cover("commit-done")
 }
 
 // Same check, fed with commit messages only (spec KINDS=4): exercises getCommitConsensus.
 func ZZ_C41_CommitBySigners() {
+	ZZ_C41_CommitDone()
+}
+
+// Same check, proposals / endorsements / commit messages mixed (insertion order of the maps only).
+func ZZ_C41_CommitMixed() {
 	ZZ_C41_CommitDone()
 }
 
@@ -259,14 +284,16 @@ func ZZ_C41_CommitEmptyFlag() {
 		r.pool.newBlockEndorsement(&blockEndorseMsg{Endorser: e, EndorsedProposer: 1, BlockNum: zzBlk, EndorserSig: sg})
 	}
 	r.messages(zzsym.Param("M"), 1, 0)
-	_, forEmpty, done := r.pool.commitDone(zzBlk, r.c, r.n)
-	if done && forEmpty {
-		zzsym.Assert(r.atLeast(r.n-r.c, func(f zzFact) bool { return f.empty }),
-			"the commit decision is for an empty block only when more than N-1-C distinct participants voted empty")
-		zzsym.Cover("commit-empty")
-	}
-	if done {
-		zzsym.Cover("commit-flag-decided")
+	for t := zzTries(); t > 0; t-- {
+		_, forEmpty, done := r.pool.commitDone(zzBlk, r.c, r.n)
+		if done && forEmpty {
+			zzsym.Assert(r.atLeast(r.n-r.c, func(f zzFact) bool { return f.empty }),
+				"the commit decision is for an empty block only when more than N-1-C distinct participants voted empty")
+			zzsym.Cover("commit-empty")
+		}
+		if done {
+			zzsym.Cover("commit-flag-decided")
+		}
 	}
 	zzsym.Cover("commit-flag-done")
 }
